@@ -127,3 +127,33 @@ Definition narrowed_ok (e : string * list string) : bool :=
 Lemma narrowed_are_fids : forallb narrowed_ok gen_narrowed = true.
 Proof. vm_compute. reflexivity. Qed.
 
+
+(** ---- transport.go framing as go2coq reads it (by role, not by spelling) = what Codec/Frame.v send/recv stand for ----
+    send (Frame.send): header = Write32(total) WriteMsgType(typ) WriteTag(tag); vectors header, data, payload in that order;
+    total = headerLength + uint32(len data) + uint32(len payload).
+    recv (Frame.recv): header = Read32 -> size, ReadMsgType -> type, ReadTag -> tag; size < headerLength and
+    size > maximumLength || size > msize are ConnErrors, in that order, before lookup; remaining = size - headerLength;
+    payloaders: FixedSize > remaining is ErrNoValidMessage, FixedSize bytes go to the decode buffer, remaining - FixedSize
+    bytes are the payload; others: the whole body is the decode buffer.
+    This is a comparison of the READ shape with a hand-written table; that Frame.v computes what the table says is by
+    inspection of Frame.v (the semantic tie stays the differential on real send/recv). *)
+Definition spec_send_header : list (string * string) := [("TOTAL", "32"); ("MSG.typ()", "MsgType"); ("TAG", "Tag")]%string.
+Definition spec_send_vectors : list string := ["HDR[:]"; "DATA.data"; "PAYLOAD"]%string.
+Definition spec_send_total : list string := ["headerLength"; "uint32(len(DATA.data))"; "uint32(len(PAYLOAD))"]%string.
+Definition spec_recv_header : list (string * string) := [("size", "32"); ("typ", "MsgType"); ("tag", "Tag")]%string.
+Definition spec_recv_checks : list string :=
+  ["SIZE<headerLength=>ConnError"; "SIZE>maximumLength||SIZE>MSIZE=>ConnError"; "REMAINING=SIZE-headerLength"]%string.
+Definition spec_recv_split : list string :=
+  ["payloader: FIXED>REMAINING=>ErrNoValidMessage"; "payloader: if FIXED!=0"; "payloader: decode-buffer int(FIXED)";
+   "payloader: if PAYLOAD==nil||len(PAYLOAD)!=int(REMAINING-FIXED)"; "payloader: payload REMAINING-FIXED";
+   "payloader: if len(PAYLOAD)>0"; "other: if REMAINING!=0"; "other: decode-buffer int(REMAINING)"]%string.
+
+Fixpoint assoc_kind (n : string) (l : list (string * skind)) : option skind :=
+  match l with [] => None | (k, v) :: r => if String.eqb k n then Some v else assoc_kind n r end.
+
+Lemma frame_shape_agrees :
+  gen_send_header = spec_send_header /\ gen_send_vectors = spec_send_vectors /\ gen_send_total = spec_send_total /\
+  gen_recv_header = spec_recv_header /\ gen_recv_checks = spec_recv_checks /\ gen_recv_split = spec_recv_split /\
+  map (fun p => assoc_kind (snd p) gen_writers) gen_send_header = [Some (KInt 4); Some (KInt 1); Some (KInt 2)] /\
+  map (fun p => assoc_kind (snd p) gen_readers) gen_recv_header = [Some (KInt 4); Some (KInt 1); Some (KInt 2)].
+Proof. repeat split; reflexivity. Qed.
